@@ -13,7 +13,7 @@ RULE = ('E1 enumeration of surface cards: every mnemonic x parameter alphabet (n
         'with probe cells -s and +s; each emitted SURF is identified with the MCNP equation as a '
         'polynomial on a unisolvent point set (all points), the probe volumes are compared on a '
         'lattice that realises every sign vector; non-trivial = both senses realised by probe points; '
-        'distinct = distinct card text')
+        'distinct = distinct card text; SQ cards with G = 0 (cones, paraboloids)')
 ASSUMPTIONS = [
     'MCNP surface equations and sense rules of DESIGN.md section 5 (manual)',
     'TRIPOLI-4 surface conventions of DESIGN.md section 5',
